@@ -148,7 +148,72 @@ fn side_counts(accts: &[(Pubkey, Option<MarginfiAccount>, Option<MarginfiAccount
 }
 
 impl Mon {
+    /// What an accepted configuration instruction was asked to do is what it did: an option that
+    /// was sent is applied as sent, a flag that was not mentioned keeps its value, a role that was
+    /// named gets exactly the named key. (The entitlement of later signers rests on this.)
+    fn config_fidelity(&mut self, v: &IxView, info: &IxInfo) {
+        use anchor_lang::AnchorDeserialize;
+        let data = &v.ev.data;
+        if data.len() < 8 {
+            return;
+        }
+        match info.kind {
+            Kind::ConfigureBank => {
+                let args = match marginfi::instruction::LendingPoolConfigureBank::deserialize(&mut &data[8..]) {
+                    Ok(a) => a,
+                    Err(_) => return,
+                };
+                let o = args.bank_config_opt;
+                for (bk, pre, post) in &info.banks {
+                    let (pre, post) = match (pre, post) {
+                        (Some(a), Some(b)) => (a, b),
+                        _ => continue,
+                    };
+                    if pre.flags & (1 << 3) != 0 {
+                        continue; // frozen: only the limits are taken (judged by the frozen-field monitor)
+                    }
+                    self.r.eval();
+                    self.r.count("fidelity.configure_bank_requests_compared");
+                    let asked: [(&str, u64, Option<bool>, &[&str]); 3] = [("permissionless-bad-debt-settlement", 1 << 2, o.permissionless_bad_debt_settlement, &["C07", "C12"]), ("freeze-settings", 1 << 3, o.freeze_settings, &["C12"]), ("tokenless-repayments-allowed", 1 << 5, o.tokenless_repayments_allowed, &["C12"])];
+                    for (name, bit, req, props) in asked {
+                        let (was, is) = (pre.flags & bit != 0, post.flags & bit != 0);
+                        let want = req.unwrap_or(was);
+                        if is != want {
+                            for p in props {
+                                self.r.violate(p, &format!("{}/ConfigureBank/flag-{}-differs-from-request", p, name), format!("bank {}: flag was {}, request {:?}, now {}", bk, was, req, is));
+                            }
+                        }
+                    }
+                }
+            }
+            Kind::GroupConfigure => {
+                let a = match marginfi::instruction::MarginfiGroupConfigure::deserialize(&mut &data[8..]) {
+                    Ok(a) => a,
+                    Err(_) => return,
+                };
+                let gk = match v.ev.pre.first() {
+                    Some(s) => s.key,
+                    None => return,
+                };
+                let g = match v.post(&gk).and_then(group_of) {
+                    Some(g) => g,
+                    None => return,
+                };
+                self.r.eval();
+                self.r.count("fidelity.group_configure_requests_compared");
+                let roles = [("admin", a.new_admin, g.admin), ("emode-admin", a.new_emode_admin, g.emode_admin), ("curve-admin", a.new_curve_admin, g.delegate_curve_admin), ("limit-admin", a.new_limit_admin, g.delegate_limit_admin), ("emissions-admin", a.new_emissions_admin, g.delegate_emissions_admin), ("metadata-admin", a.new_metadata_admin, g.metadata_admin), ("risk-admin", a.new_risk_admin, g.risk_admin)];
+                for (name, want, got) in roles {
+                    if want != got {
+                        self.r.violate("C08", &format!("C08/GroupConfigure/{}-not-set-as-requested", name), format!("group {}: requested {} but the role is held by {}", gk, want, got));
+                    }
+                }
+            }
+            _ => {}
+        }
+    }
+
     pub fn admin_on_ix(&mut self, w: &World, v: &IxView, info: &IxInfo) {
+        self.config_fidelity(v, info);
         if self.r.is("C12") {
             self.c12(w, v, info);
         }
